@@ -50,6 +50,7 @@ extern void simSbrkRefuse(unsigned long n);
 extern unsigned long simSbrkRefusePending(void);
 extern int simSbrkForeign(unsigned long pages);
 extern char *simLastForeign(unsigned long *pages);
+extern int simSbrkForeignBytes(unsigned long nbytes);
 extern char *simArenaBase(void);
 extern char *simArenaBrk(void);
 extern unsigned long simForcedGcCount(void);
@@ -209,11 +210,13 @@ static unsigned long *foreignSlot(unsigned long salt)
 	if (!nFreg) return 0;
 	for (tries = 0; tries < nFreg; tries++) {
 		int r = (int) ((salt + (unsigned long) tries) % (unsigned long) nFreg);
-		long cap = (long) (freg[r].pages * 4096 / 8);
+		long cap = (long) (freg[r].pages * 4096 / 8) - 1;
 		if (freg[r].used < cap) {
 			freg[r].used++;
 			nForeignRoots++;
-			return (unsigned long *) (freg[r].base + freg[r].pages * 4096) - freg[r].used;
+			/* (the region may start at any byte: root words sit at word-aligned addresses, the only
+			 * ones a conservative collector - and a C compiler - ever uses for pointers) */
+			return (unsigned long *) (((unsigned long) (freg[r].base + freg[r].pages * 4096)) & ~7UL) - freg[r].used;
 		}
 	}
 	return 0;
@@ -623,6 +626,7 @@ int main(int argc, char **argv)
 				freg[nFreg].base = fb2; freg[nFreg].pages = pg; freg[nFreg].used = 0; nFreg++;
 			}
 			break;
+		case 'O': sscanf(line, "O %lu", &a); simSbrkForeignBytes(a); break;	/* foreign break movement by bytes */
 		case 'v': sscanf(line, "v %lu", &a); stoCtl(StoCtl_GcLevel, (int) a); break;
 		case 'w': sscanf(line, "w %lu", &a); if (!washSet && !nB) { stoCtl(StoCtl_Wash, (int) a); washSet = 1; } break;
 		case 'k': {	/* a chain of n blocks, each holding the previous one through its FIRST word
